@@ -30,6 +30,13 @@ func H_value() {
 		vAssert(false, "compiles")
 		return
 	}
+	if vHasParam("prelude") {
+		// an earlier evaluation (which may abort with an error of the package) must not
+		// influence the one that is checked
+		if e0, err0 := Compile(vParam("prelude")); err0 == nil {
+			vGuard(func() { e0.Evaluate(vNav(doc, cur, attr)) })
+		}
+	}
 	if !vEvalAndCheck(e, doc, cur, attr, "expr", "") {
 		return
 	}
